@@ -473,4 +473,691 @@ theorem cardano_root_hasDerivAt (A B C : ℝ → ℝ) (a' b' c' t : ℝ) (k : Na
 
 end diff
 
+/-! ### eFJC and tWLC: Jacobian rows w.r.t. the parameters -/
+section extjac
+open Filter Topology
+set_option linter.unusedSimpArgs false
+set_option linter.unusedTactic false
+set_option linter.unreachableTactic false
+set_option linter.unusedVariables false
+
+
+theorem efjc_jac_Lc (f Lp Lc St kT : ℝ) :
+    HasDerivAt (fun Lc => efjcDistance f Lp Lc St kT) ((efjcDistanceJac f Lp Lc St kT).getD 1 0) Lc := by
+  have harg : Lp * (2.0 * f / kT) = 2.0 * f * Lp / kT := by
+    have h20 : (2.0:ℝ) = 2 := by norm_num
+    rw [h20]; ring
+  apply HasDerivAt.congr_deriv
+  · simp only [efjcDistance]
+    repeat' deriv_step_h
+  · simp only [efjcDistanceJac, List.getD_cons_succ, List.getD_cons_zero, harg]
+    generalize coth (2.0 * f * Lp / kT) = K
+    norm_num
+    ring
+
+theorem efjc_jac_St (f Lp Lc St kT : ℝ) (hSt : 0 < St) :
+    HasDerivAt (fun St => efjcDistance f Lp Lc St kT) ((efjcDistanceJac f Lp Lc St kT).getD 2 0) St := by
+  have harg : Lp * (2.0 * f / kT) = 2.0 * f * Lp / kT := by
+    have h20 : (2.0:ℝ) = 2 := by norm_num
+    rw [h20]; ring
+  apply HasDerivAt.congr_deriv
+  · simp only [efjcDistance]
+    repeat' deriv_step_h
+    all_goals side_goal
+  · simp only [efjcDistanceJac, List.getD_cons_succ, List.getD_cons_zero, harg]
+    generalize coth (2.0 * f * Lp / kT) = K
+    norm_num
+    field_simp
+    ring
+
+
+theorem efjc_jac_Lp (f Lp Lc St kT : ℝ) (hf : 0 < f) (hLp : 0 < Lp) (hkT : 0 < kT) (hSt : 0 < St)
+    (hx : f * (2 * Lp / kT) < 300) :
+    HasDerivAt (fun Lp => efjcDistance f Lp Lc St kT) ((efjcDistanceJac f Lp Lc St kT).getD 0 0) Lp := by
+  have h20 : (2.0:ℝ) = 2 := by norm_num
+  have hB : Lp < 150 * kT / f := by
+    rw [lt_div_iff₀ hf]
+    have : f * (2 * Lp / kT) * kT = 2 * (f * Lp) := by field_simp
+    nlinarith
+  have hev : (fun Lp => efjcDistance f Lp Lc St kT) =ᶠ[𝓝 Lp]
+      fun Lp => Lc * (Real.cosh (2.0 * f * Lp / kT) / Real.sinh (2.0 * f * Lp / kT) - kT / (2.0 * f * Lp)) * (1.0 + f / St) := by
+    filter_upwards [Ioo_mem_nhds hLp hB] with x hx
+    obtain ⟨hx0, hx1⟩ := hx
+    have h1 : RealLike.lt (RealLike.abs (2.0 * f * x / kT)) (500.0:ℝ) = true := by
+      show decide (|2.0 * f * x / kT| < 500.0) = true
+      rw [decide_eq_true_eq]
+      have hp : 0 < 2.0 * f * x / kT := by positivity
+      rw [abs_of_pos hp, div_lt_iff₀ hkT]
+      rw [lt_div_iff₀ hf] at hx1
+      norm_num; nlinarith
+    simp only [efjcDistance, coth, h1, if_true]
+    rfl
+  refine HasDerivAt.congr_of_eventuallyEq ?_ hev
+  have hsinh : Real.sinh (2.0 * f * Lp / kT) ≠ 0 := by
+    have hp : 0 < 2.0 * f * Lp / kT := by positivity
+    exact (Real.sinh_pos_iff.mpr hp).ne'
+  apply HasDerivAt.congr_deriv
+  · repeat' deriv_step_h
+    all_goals side_goal
+  · have harg : Lp * (2.0 * f / kT) = 2.0 * f * Lp / kT := by rw [h20]; ring
+    have h1 : RealLike.lt (RealLike.abs (2.0 * f * Lp / kT)) (500.0:ℝ) = true := by
+      show decide (|2.0 * f * Lp / kT| < 500.0) = true
+      rw [decide_eq_true_eq]
+      have hp : 0 < 2.0 * f * Lp / kT := by positivity
+      rw [abs_of_pos hp]
+      have : 2.0 * f * Lp / kT = f * (2 * Lp / kT) := by rw [h20]; ring
+      rw [this]; norm_num; linarith
+    have h2 : RealLike.lt (RealLike.abs (2.0 * f * Lp / kT)) (300.0:ℝ) = true := by
+      show decide (|2.0 * f * Lp / kT| < 300.0) = true
+      rw [decide_eq_true_eq]
+      have hp : 0 < 2.0 * f * Lp / kT := by positivity
+      rw [abs_of_pos hp]
+      have : 2.0 * f * Lp / kT = f * (2 * Lp / kT) := by rw [h20]; ring
+      rw [this]; norm_num; linarith
+    simp only [efjcDistanceJac, List.getD_cons_succ, List.getD_cons_zero, harg, coth, h1, h2, if_true]
+    have hcs := Real.cosh_sq (2.0 * f * Lp / kT)
+    simp only [RealLikeH.sinh, RealLikeH.cosh]
+    generalize Real.cosh (2.0 * f * Lp / kT) = ch at *
+    generalize Real.sinh (2.0 * f * Lp / kT) = sh at *
+    norm_num
+    field_simp
+    grind
+theorem efjc_jac_kT (f Lp Lc St kT : ℝ) (hf : 0 < f) (hLp : 0 < Lp) (hkT : 0 < kT) (hSt : 0 < St)
+    (hx : f * (2 * Lp / kT) < 300) :
+    HasDerivAt (fun kT => efjcDistance f Lp Lc St kT) ((efjcDistanceJac f Lp Lc St kT).getD 3 0) kT := by
+  have h20 : (2.0:ℝ) = 2 := by norm_num
+  have hB : f * Lp / 150 < kT := by
+    rw [div_lt_iff₀ (by norm_num)]
+    have : f * (2 * Lp / kT) * kT = 2 * (f * Lp) := by field_simp
+    nlinarith
+  have hB0 : 0 < f * Lp / 150 := by positivity
+  have hev : (fun kT => efjcDistance f Lp Lc St kT) =ᶠ[𝓝 kT]
+      fun kT => Lc * (Real.cosh (2.0 * f * Lp / kT) / Real.sinh (2.0 * f * Lp / kT) - kT / (2.0 * f * Lp)) * (1.0 + f / St) := by
+    filter_upwards [Ioi_mem_nhds hB] with x hx
+    have hx1 : f * Lp / 150 < x := hx
+    have hx0 : 0 < x := lt_trans hB0 hx1
+    have h1 : RealLike.lt (RealLike.abs (2.0 * f * Lp / x)) (500.0:ℝ) = true := by
+      show decide (|2.0 * f * Lp / x| < 500.0) = true
+      rw [decide_eq_true_eq]
+      have hp : 0 < 2.0 * f * Lp / x := by positivity
+      rw [abs_of_pos hp, div_lt_iff₀ hx0]
+      rw [div_lt_iff₀ (by norm_num)] at hx1
+      norm_num; nlinarith
+    simp only [efjcDistance, coth, h1, if_true]
+    rfl
+  refine HasDerivAt.congr_of_eventuallyEq ?_ hev
+  have hsinh : Real.sinh (2.0 * f * Lp / kT) ≠ 0 := by
+    have hp : 0 < 2.0 * f * Lp / kT := by positivity
+    exact (Real.sinh_pos_iff.mpr hp).ne'
+  apply HasDerivAt.congr_deriv
+  · repeat' deriv_step_h
+    all_goals side_goal
+  · have harg : Lp * (2.0 * f / kT) = 2.0 * f * Lp / kT := by rw [h20]; ring
+    have h1 : RealLike.lt (RealLike.abs (2.0 * f * Lp / kT)) (500.0:ℝ) = true := by
+      show decide (|2.0 * f * Lp / kT| < 500.0) = true
+      rw [decide_eq_true_eq]
+      have hp : 0 < 2.0 * f * Lp / kT := by positivity
+      rw [abs_of_pos hp]
+      have : 2.0 * f * Lp / kT = f * (2 * Lp / kT) := by rw [h20]; ring
+      rw [this]; norm_num; linarith
+    have h2 : RealLike.lt (RealLike.abs (2.0 * f * Lp / kT)) (300.0:ℝ) = true := by
+      show decide (|2.0 * f * Lp / kT| < 300.0) = true
+      rw [decide_eq_true_eq]
+      have hp : 0 < 2.0 * f * Lp / kT := by positivity
+      rw [abs_of_pos hp]
+      have : 2.0 * f * Lp / kT = f * (2 * Lp / kT) := by rw [h20]; ring
+      rw [this]; norm_num; linarith
+    simp only [efjcDistanceJac, List.getD_cons_succ, List.getD_cons_zero, harg, coth, h1, h2, if_true]
+    have hcs := Real.cosh_sq (2.0 * f * Lp / kT)
+    simp only [RealLikeH.sinh, RealLikeH.cosh]
+    generalize Real.cosh (2.0 * f * Lp / kT) = ch at *
+    generalize Real.sinh (2.0 * f * Lp / kT) = sh at *
+    norm_num
+    field_simp
+    grind
+
+
+theorem twlc_jac_above_Lp (f Lp Lc St C g0 g1 Fc kT : ℝ) (hf : 0 < f) (hLp : 0 < Lp) (hkT : 0 < kT) (hFc : Fc < f)
+    (hden : C * St - (g0 + g1 * f) * (g0 + g1 * f) ≠ 0) (hg : g0 + g1 * f ≠ 0) :
+    HasDerivAt (fun v => twlcDistance f v Lc St C g0 g1 Fc kT) ((twlcDistanceJac f Lp Lc St C g0 g1 Fc kT).getD 0 0) Lp := by
+  obtain ⟨hsp, hk⟩ := odijk_sqrt_facts f Lp kT hf hLp hkT
+  have hpos : 0 < kT / (f * Lp) := by positivity
+  have hden' : -(g0 + g1 * f) * (g0 + g1 * f) + St * C ≠ 0 := by
+    intro h; apply hden; linarith
+  have h1 : RealLike.lt f Fc = false := by
+    show decide (f < Fc) = false
+    rw [decide_eq_false_iff_not]; linarith
+  have h2 : RealLike.le Fc f = true := by
+    show decide (Fc ≤ f) = true
+    rw [decide_eq_true_eq]; linarith
+  have i1 : RealLike.lt Fc f = true := by
+    show decide (Fc < f) = true
+    rw [decide_eq_true_eq]; exact hFc
+  have i2 : RealLike.le f Fc = false := by
+    show decide (f ≤ Fc) = false
+    rw [decide_eq_false_iff_not]; linarith
+  apply HasDerivAt.congr_deriv
+  · simp only [twlcDistance, h1, h2, Bool.false_eq_true, if_false, if_true]
+    deriv_auto
+    all_goals side_goal
+  · simp only [twlcDistanceJac, RealLike.sqrt, i1, i2, ind, if_true, Bool.false_eq_true, if_false,
+      List.getD_cons_succ, List.getD_cons_zero]
+    have e : kT * (1.0 / Lp) / f = kT / (f * Lp) := by norm_num; field_simp
+    try rw [e]
+    generalize Real.sqrt (kT / (f * Lp)) = s at *
+    subst hk
+    have hden2 : C * St - (g0 + g1 * (f * 1.0 + Fc * 0.0)) * (g0 + g1 * (f * 1.0 + Fc * 0.0)) ≠ 0 := by
+      norm_num; exact hden
+    have hg2 : g0 + g1 * (f * 1.0 + Fc * 0.0) ≠ 0 := by norm_num; exact hg
+    rat_close
+
+theorem twlc_jac_above_Lc (f Lp Lc St C g0 g1 Fc kT : ℝ) (hf : 0 < f) (hLp : 0 < Lp) (hkT : 0 < kT) (hFc : Fc < f)
+    (hden : C * St - (g0 + g1 * f) * (g0 + g1 * f) ≠ 0) (hg : g0 + g1 * f ≠ 0) :
+    HasDerivAt (fun v => twlcDistance f Lp v St C g0 g1 Fc kT) ((twlcDistanceJac f Lp Lc St C g0 g1 Fc kT).getD 1 0) Lc := by
+  obtain ⟨hsp, hk⟩ := odijk_sqrt_facts f Lp kT hf hLp hkT
+  have hpos : 0 < kT / (f * Lp) := by positivity
+  have hden' : -(g0 + g1 * f) * (g0 + g1 * f) + St * C ≠ 0 := by
+    intro h; apply hden; linarith
+  have h1 : RealLike.lt f Fc = false := by
+    show decide (f < Fc) = false
+    rw [decide_eq_false_iff_not]; linarith
+  have h2 : RealLike.le Fc f = true := by
+    show decide (Fc ≤ f) = true
+    rw [decide_eq_true_eq]; linarith
+  have i1 : RealLike.lt Fc f = true := by
+    show decide (Fc < f) = true
+    rw [decide_eq_true_eq]; exact hFc
+  have i2 : RealLike.le f Fc = false := by
+    show decide (f ≤ Fc) = false
+    rw [decide_eq_false_iff_not]; linarith
+  apply HasDerivAt.congr_deriv
+  · simp only [twlcDistance, h1, h2, Bool.false_eq_true, if_false, if_true]
+    deriv_auto
+    all_goals side_goal
+  · simp only [twlcDistanceJac, RealLike.sqrt, i1, i2, ind, if_true, Bool.false_eq_true, if_false,
+      List.getD_cons_succ, List.getD_cons_zero]
+    have e : kT * (1.0 / Lp) / f = kT / (f * Lp) := by norm_num; field_simp
+    try rw [e]
+    generalize Real.sqrt (kT / (f * Lp)) = s at *
+    subst hk
+    have hden2 : C * St - (g0 + g1 * (f * 1.0 + Fc * 0.0)) * (g0 + g1 * (f * 1.0 + Fc * 0.0)) ≠ 0 := by
+      norm_num; exact hden
+    have hg2 : g0 + g1 * (f * 1.0 + Fc * 0.0) ≠ 0 := by norm_num; exact hg
+    rat_close
+
+theorem twlc_jac_above_St (f Lp Lc St C g0 g1 Fc kT : ℝ) (hf : 0 < f) (hLp : 0 < Lp) (hkT : 0 < kT) (hFc : Fc < f)
+    (hden : C * St - (g0 + g1 * f) * (g0 + g1 * f) ≠ 0) (hg : g0 + g1 * f ≠ 0) :
+    HasDerivAt (fun v => twlcDistance f Lp Lc v C g0 g1 Fc kT) ((twlcDistanceJac f Lp Lc St C g0 g1 Fc kT).getD 2 0) St := by
+  obtain ⟨hsp, hk⟩ := odijk_sqrt_facts f Lp kT hf hLp hkT
+  have hpos : 0 < kT / (f * Lp) := by positivity
+  have hden' : -(g0 + g1 * f) * (g0 + g1 * f) + St * C ≠ 0 := by
+    intro h; apply hden; linarith
+  have h1 : RealLike.lt f Fc = false := by
+    show decide (f < Fc) = false
+    rw [decide_eq_false_iff_not]; linarith
+  have h2 : RealLike.le Fc f = true := by
+    show decide (Fc ≤ f) = true
+    rw [decide_eq_true_eq]; linarith
+  have i1 : RealLike.lt Fc f = true := by
+    show decide (Fc < f) = true
+    rw [decide_eq_true_eq]; exact hFc
+  have i2 : RealLike.le f Fc = false := by
+    show decide (f ≤ Fc) = false
+    rw [decide_eq_false_iff_not]; linarith
+  apply HasDerivAt.congr_deriv
+  · simp only [twlcDistance, h1, h2, Bool.false_eq_true, if_false, if_true]
+    deriv_auto
+    all_goals side_goal
+  · simp only [twlcDistanceJac, RealLike.sqrt, i1, i2, ind, if_true, Bool.false_eq_true, if_false,
+      List.getD_cons_succ, List.getD_cons_zero]
+    have e : kT * (1.0 / Lp) / f = kT / (f * Lp) := by norm_num; field_simp
+    try rw [e]
+    generalize Real.sqrt (kT / (f * Lp)) = s at *
+    subst hk
+    have hden2 : C * St - (g0 + g1 * (f * 1.0 + Fc * 0.0)) * (g0 + g1 * (f * 1.0 + Fc * 0.0)) ≠ 0 := by
+      norm_num; exact hden
+    have hg2 : g0 + g1 * (f * 1.0 + Fc * 0.0) ≠ 0 := by norm_num; exact hg
+    rat_close
+
+theorem twlc_jac_above_C (f Lp Lc St C g0 g1 Fc kT : ℝ) (hf : 0 < f) (hLp : 0 < Lp) (hkT : 0 < kT) (hFc : Fc < f)
+    (hden : C * St - (g0 + g1 * f) * (g0 + g1 * f) ≠ 0) (hg : g0 + g1 * f ≠ 0) :
+    HasDerivAt (fun v => twlcDistance f Lp Lc St v g0 g1 Fc kT) ((twlcDistanceJac f Lp Lc St C g0 g1 Fc kT).getD 3 0) C := by
+  obtain ⟨hsp, hk⟩ := odijk_sqrt_facts f Lp kT hf hLp hkT
+  have hpos : 0 < kT / (f * Lp) := by positivity
+  have hden' : -(g0 + g1 * f) * (g0 + g1 * f) + St * C ≠ 0 := by
+    intro h; apply hden; linarith
+  have h1 : RealLike.lt f Fc = false := by
+    show decide (f < Fc) = false
+    rw [decide_eq_false_iff_not]; linarith
+  have h2 : RealLike.le Fc f = true := by
+    show decide (Fc ≤ f) = true
+    rw [decide_eq_true_eq]; linarith
+  have i1 : RealLike.lt Fc f = true := by
+    show decide (Fc < f) = true
+    rw [decide_eq_true_eq]; exact hFc
+  have i2 : RealLike.le f Fc = false := by
+    show decide (f ≤ Fc) = false
+    rw [decide_eq_false_iff_not]; linarith
+  apply HasDerivAt.congr_deriv
+  · simp only [twlcDistance, h1, h2, Bool.false_eq_true, if_false, if_true]
+    deriv_auto
+    all_goals side_goal
+  · simp only [twlcDistanceJac, RealLike.sqrt, i1, i2, ind, if_true, Bool.false_eq_true, if_false,
+      List.getD_cons_succ, List.getD_cons_zero]
+    have e : kT * (1.0 / Lp) / f = kT / (f * Lp) := by norm_num; field_simp
+    try rw [e]
+    generalize Real.sqrt (kT / (f * Lp)) = s at *
+    subst hk
+    have hden2 : C * St - (g0 + g1 * (f * 1.0 + Fc * 0.0)) * (g0 + g1 * (f * 1.0 + Fc * 0.0)) ≠ 0 := by
+      norm_num; exact hden
+    have hg2 : g0 + g1 * (f * 1.0 + Fc * 0.0) ≠ 0 := by norm_num; exact hg
+    rat_close
+
+theorem twlc_jac_above_g0 (f Lp Lc St C g0 g1 Fc kT : ℝ) (hf : 0 < f) (hLp : 0 < Lp) (hkT : 0 < kT) (hFc : Fc < f)
+    (hden : C * St - (g0 + g1 * f) * (g0 + g1 * f) ≠ 0) (hg : g0 + g1 * f ≠ 0) :
+    HasDerivAt (fun v => twlcDistance f Lp Lc St C v g1 Fc kT) ((twlcDistanceJac f Lp Lc St C g0 g1 Fc kT).getD 4 0) g0 := by
+  obtain ⟨hsp, hk⟩ := odijk_sqrt_facts f Lp kT hf hLp hkT
+  have hpos : 0 < kT / (f * Lp) := by positivity
+  have hden' : -(g0 + g1 * f) * (g0 + g1 * f) + St * C ≠ 0 := by
+    intro h; apply hden; linarith
+  have h1 : RealLike.lt f Fc = false := by
+    show decide (f < Fc) = false
+    rw [decide_eq_false_iff_not]; linarith
+  have h2 : RealLike.le Fc f = true := by
+    show decide (Fc ≤ f) = true
+    rw [decide_eq_true_eq]; linarith
+  have i1 : RealLike.lt Fc f = true := by
+    show decide (Fc < f) = true
+    rw [decide_eq_true_eq]; exact hFc
+  have i2 : RealLike.le f Fc = false := by
+    show decide (f ≤ Fc) = false
+    rw [decide_eq_false_iff_not]; linarith
+  apply HasDerivAt.congr_deriv
+  · simp only [twlcDistance, h1, h2, Bool.false_eq_true, if_false, if_true]
+    deriv_auto
+    all_goals side_goal
+  · simp only [twlcDistanceJac, RealLike.sqrt, i1, i2, ind, if_true, Bool.false_eq_true, if_false,
+      List.getD_cons_succ, List.getD_cons_zero]
+    have e : kT * (1.0 / Lp) / f = kT / (f * Lp) := by norm_num; field_simp
+    try rw [e]
+    generalize Real.sqrt (kT / (f * Lp)) = s at *
+    subst hk
+    have hden2 : C * St - (g0 + g1 * (f * 1.0 + Fc * 0.0)) * (g0 + g1 * (f * 1.0 + Fc * 0.0)) ≠ 0 := by
+      norm_num; exact hden
+    have hg2 : g0 + g1 * (f * 1.0 + Fc * 0.0) ≠ 0 := by norm_num; exact hg
+    rat_close
+
+theorem twlc_jac_above_g1 (f Lp Lc St C g0 g1 Fc kT : ℝ) (hf : 0 < f) (hLp : 0 < Lp) (hkT : 0 < kT) (hFc : Fc < f)
+    (hden : C * St - (g0 + g1 * f) * (g0 + g1 * f) ≠ 0) (hg : g0 + g1 * f ≠ 0) :
+    HasDerivAt (fun v => twlcDistance f Lp Lc St C g0 v Fc kT) ((twlcDistanceJac f Lp Lc St C g0 g1 Fc kT).getD 5 0) g1 := by
+  obtain ⟨hsp, hk⟩ := odijk_sqrt_facts f Lp kT hf hLp hkT
+  have hpos : 0 < kT / (f * Lp) := by positivity
+  have hden' : -(g0 + g1 * f) * (g0 + g1 * f) + St * C ≠ 0 := by
+    intro h; apply hden; linarith
+  have h1 : RealLike.lt f Fc = false := by
+    show decide (f < Fc) = false
+    rw [decide_eq_false_iff_not]; linarith
+  have h2 : RealLike.le Fc f = true := by
+    show decide (Fc ≤ f) = true
+    rw [decide_eq_true_eq]; linarith
+  have i1 : RealLike.lt Fc f = true := by
+    show decide (Fc < f) = true
+    rw [decide_eq_true_eq]; exact hFc
+  have i2 : RealLike.le f Fc = false := by
+    show decide (f ≤ Fc) = false
+    rw [decide_eq_false_iff_not]; linarith
+  apply HasDerivAt.congr_deriv
+  · simp only [twlcDistance, h1, h2, Bool.false_eq_true, if_false, if_true]
+    deriv_auto
+    all_goals side_goal
+  · simp only [twlcDistanceJac, RealLike.sqrt, i1, i2, ind, if_true, Bool.false_eq_true, if_false,
+      List.getD_cons_succ, List.getD_cons_zero]
+    have e : kT * (1.0 / Lp) / f = kT / (f * Lp) := by norm_num; field_simp
+    try rw [e]
+    generalize Real.sqrt (kT / (f * Lp)) = s at *
+    subst hk
+    have hden2 : C * St - (g0 + g1 * (f * 1.0 + Fc * 0.0)) * (g0 + g1 * (f * 1.0 + Fc * 0.0)) ≠ 0 := by
+      norm_num; exact hden
+    have hg2 : g0 + g1 * (f * 1.0 + Fc * 0.0) ≠ 0 := by norm_num; exact hg
+    rat_close
+
+theorem twlc_jac_above_Fc (f Lp Lc St C g0 g1 Fc kT : ℝ) (hf : 0 < f) (hLp : 0 < Lp) (hkT : 0 < kT) (hFc : Fc < f)
+    (hden : C * St - (g0 + g1 * f) * (g0 + g1 * f) ≠ 0) (hg : g0 + g1 * f ≠ 0) :
+    HasDerivAt (fun v => twlcDistance f Lp Lc St C g0 g1 v kT) ((twlcDistanceJac f Lp Lc St C g0 g1 Fc kT).getD 6 0) Fc := by
+  obtain ⟨hsp, hk⟩ := odijk_sqrt_facts f Lp kT hf hLp hkT
+  have hpos : 0 < kT / (f * Lp) := by positivity
+  have hden' : -(g0 + g1 * f) * (g0 + g1 * f) + St * C ≠ 0 := by
+    intro h; apply hden; linarith
+  have h1 : RealLike.lt f Fc = false := by
+    show decide (f < Fc) = false
+    rw [decide_eq_false_iff_not]; linarith
+  have h2 : RealLike.le Fc f = true := by
+    show decide (Fc ≤ f) = true
+    rw [decide_eq_true_eq]; linarith
+  have i1 : RealLike.lt Fc f = true := by
+    show decide (Fc < f) = true
+    rw [decide_eq_true_eq]; exact hFc
+  have i2 : RealLike.le f Fc = false := by
+    show decide (f ≤ Fc) = false
+    rw [decide_eq_false_iff_not]; linarith
+  have hev : (fun v => twlcDistance f Lp Lc St C g0 g1 v kT) =ᶠ[𝓝 Fc]
+      fun _ => Lc * (1.0 - 1.0 / 2.0 * Real.sqrt (kT / (f * Lp)) + (C / ((-(g0 + g1 * f)) * (g0 + g1 * f) + St * C)) * f) := by
+    filter_upwards [Iio_mem_nhds hFc] with x hx
+    have hx' : x < f := hx
+    have h1 : RealLike.lt f x = false := by
+      show decide (f < x) = false
+      rw [decide_eq_false_iff_not]; linarith
+    have h2 : RealLike.le x f = true := by
+      show decide (x ≤ f) = true
+      rw [decide_eq_true_eq]; linarith
+    simp only [twlcDistance, h1, h2, Bool.false_eq_true, if_false, if_true]
+    rfl
+  refine HasDerivAt.congr_of_eventuallyEq ?_ hev
+  apply HasDerivAt.congr_deriv
+  · exact hasDerivAt_const _ _
+  · simp only [twlcDistanceJac, RealLike.sqrt, i1, i2, ind, if_true, Bool.false_eq_true, if_false,
+      List.getD_cons_succ, List.getD_cons_zero]
+    have e : kT * (1.0 / Lp) / f = kT / (f * Lp) := by norm_num; field_simp
+    try rw [e]
+    generalize Real.sqrt (kT / (f * Lp)) = s at *
+    subst hk
+    have hden2 : C * St - (g0 + g1 * (f * 1.0 + Fc * 0.0)) * (g0 + g1 * (f * 1.0 + Fc * 0.0)) ≠ 0 := by
+      norm_num; exact hden
+    have hg2 : g0 + g1 * (f * 1.0 + Fc * 0.0) ≠ 0 := by norm_num; exact hg
+    rat_close
+
+theorem twlc_jac_above_kT (f Lp Lc St C g0 g1 Fc kT : ℝ) (hf : 0 < f) (hLp : 0 < Lp) (hkT : 0 < kT) (hFc : Fc < f)
+    (hden : C * St - (g0 + g1 * f) * (g0 + g1 * f) ≠ 0) (hg : g0 + g1 * f ≠ 0) :
+    HasDerivAt (fun v => twlcDistance f Lp Lc St C g0 g1 Fc v) ((twlcDistanceJac f Lp Lc St C g0 g1 Fc kT).getD 7 0) kT := by
+  obtain ⟨hsp, hk⟩ := odijk_sqrt_facts f Lp kT hf hLp hkT
+  have hpos : 0 < kT / (f * Lp) := by positivity
+  have hden' : -(g0 + g1 * f) * (g0 + g1 * f) + St * C ≠ 0 := by
+    intro h; apply hden; linarith
+  have h1 : RealLike.lt f Fc = false := by
+    show decide (f < Fc) = false
+    rw [decide_eq_false_iff_not]; linarith
+  have h2 : RealLike.le Fc f = true := by
+    show decide (Fc ≤ f) = true
+    rw [decide_eq_true_eq]; linarith
+  have i1 : RealLike.lt Fc f = true := by
+    show decide (Fc < f) = true
+    rw [decide_eq_true_eq]; exact hFc
+  have i2 : RealLike.le f Fc = false := by
+    show decide (f ≤ Fc) = false
+    rw [decide_eq_false_iff_not]; linarith
+  apply HasDerivAt.congr_deriv
+  · simp only [twlcDistance, h1, h2, Bool.false_eq_true, if_false, if_true]
+    deriv_auto
+    all_goals side_goal
+  · simp only [twlcDistanceJac, RealLike.sqrt, i1, i2, ind, if_true, Bool.false_eq_true, if_false,
+      List.getD_cons_succ, List.getD_cons_zero]
+    have e : kT * (1.0 / Lp) / f = kT / (f * Lp) := by norm_num; field_simp
+    try rw [e]
+    generalize Real.sqrt (kT / (f * Lp)) = s at *
+    subst hk
+    have hden2 : C * St - (g0 + g1 * (f * 1.0 + Fc * 0.0)) * (g0 + g1 * (f * 1.0 + Fc * 0.0)) ≠ 0 := by
+      norm_num; exact hden
+    have hg2 : g0 + g1 * (f * 1.0 + Fc * 0.0) ≠ 0 := by norm_num; exact hg
+    rat_close
+
+theorem twlc_jac_below_Lp (f Lp Lc St C g0 g1 Fc kT : ℝ) (hf : 0 < f) (hLp : 0 < Lp) (hkT : 0 < kT) (hFc : f < Fc)
+    (hden : C * St - (g0 + g1 * Fc) * (g0 + g1 * Fc) ≠ 0) (hg : g0 + g1 * Fc ≠ 0) :
+    HasDerivAt (fun v => twlcDistance f v Lc St C g0 g1 Fc kT) ((twlcDistanceJac f Lp Lc St C g0 g1 Fc kT).getD 0 0) Lp := by
+  obtain ⟨hsp, hk⟩ := odijk_sqrt_facts f Lp kT hf hLp hkT
+  have hpos : 0 < kT / (f * Lp) := by positivity
+  have hden' : -(g0 + g1 * Fc) * (g0 + g1 * Fc) + St * C ≠ 0 := by
+    intro h; apply hden; linarith
+  have h1 : RealLike.lt f Fc = true := by
+    show decide (f < Fc) = true
+    rw [decide_eq_true_eq]; exact hFc
+  have i1 : RealLike.lt Fc f = false := by
+    show decide (Fc < f) = false
+    rw [decide_eq_false_iff_not]; linarith
+  have i2 : RealLike.le f Fc = true := by
+    show decide (f ≤ Fc) = true
+    rw [decide_eq_true_eq]; linarith
+  apply HasDerivAt.congr_deriv
+  · simp only [twlcDistance, h1, if_true]
+    deriv_auto
+    all_goals side_goal
+  · simp only [twlcDistanceJac, RealLike.sqrt, i1, i2, ind, if_true, Bool.false_eq_true, if_false,
+      List.getD_cons_succ, List.getD_cons_zero]
+    have e : kT * (1.0 / Lp) / f = kT / (f * Lp) := by norm_num; field_simp
+    try rw [e]
+    generalize Real.sqrt (kT / (f * Lp)) = s at *
+    subst hk
+    have hden2 : C * St - (g0 + g1 * (f * 0.0 + Fc * 1.0)) * (g0 + g1 * (f * 0.0 + Fc * 1.0)) ≠ 0 := by
+      norm_num; exact hden
+    have hg2 : g0 + g1 * (f * 0.0 + Fc * 1.0) ≠ 0 := by norm_num; exact hg
+    rat_close
+
+theorem twlc_jac_below_Lc (f Lp Lc St C g0 g1 Fc kT : ℝ) (hf : 0 < f) (hLp : 0 < Lp) (hkT : 0 < kT) (hFc : f < Fc)
+    (hden : C * St - (g0 + g1 * Fc) * (g0 + g1 * Fc) ≠ 0) (hg : g0 + g1 * Fc ≠ 0) :
+    HasDerivAt (fun v => twlcDistance f Lp v St C g0 g1 Fc kT) ((twlcDistanceJac f Lp Lc St C g0 g1 Fc kT).getD 1 0) Lc := by
+  obtain ⟨hsp, hk⟩ := odijk_sqrt_facts f Lp kT hf hLp hkT
+  have hpos : 0 < kT / (f * Lp) := by positivity
+  have hden' : -(g0 + g1 * Fc) * (g0 + g1 * Fc) + St * C ≠ 0 := by
+    intro h; apply hden; linarith
+  have h1 : RealLike.lt f Fc = true := by
+    show decide (f < Fc) = true
+    rw [decide_eq_true_eq]; exact hFc
+  have i1 : RealLike.lt Fc f = false := by
+    show decide (Fc < f) = false
+    rw [decide_eq_false_iff_not]; linarith
+  have i2 : RealLike.le f Fc = true := by
+    show decide (f ≤ Fc) = true
+    rw [decide_eq_true_eq]; linarith
+  apply HasDerivAt.congr_deriv
+  · simp only [twlcDistance, h1, if_true]
+    deriv_auto
+    all_goals side_goal
+  · simp only [twlcDistanceJac, RealLike.sqrt, i1, i2, ind, if_true, Bool.false_eq_true, if_false,
+      List.getD_cons_succ, List.getD_cons_zero]
+    have e : kT * (1.0 / Lp) / f = kT / (f * Lp) := by norm_num; field_simp
+    try rw [e]
+    generalize Real.sqrt (kT / (f * Lp)) = s at *
+    subst hk
+    have hden2 : C * St - (g0 + g1 * (f * 0.0 + Fc * 1.0)) * (g0 + g1 * (f * 0.0 + Fc * 1.0)) ≠ 0 := by
+      norm_num; exact hden
+    have hg2 : g0 + g1 * (f * 0.0 + Fc * 1.0) ≠ 0 := by norm_num; exact hg
+    rat_close
+
+theorem twlc_jac_below_St (f Lp Lc St C g0 g1 Fc kT : ℝ) (hf : 0 < f) (hLp : 0 < Lp) (hkT : 0 < kT) (hFc : f < Fc)
+    (hden : C * St - (g0 + g1 * Fc) * (g0 + g1 * Fc) ≠ 0) (hg : g0 + g1 * Fc ≠ 0) :
+    HasDerivAt (fun v => twlcDistance f Lp Lc v C g0 g1 Fc kT) ((twlcDistanceJac f Lp Lc St C g0 g1 Fc kT).getD 2 0) St := by
+  obtain ⟨hsp, hk⟩ := odijk_sqrt_facts f Lp kT hf hLp hkT
+  have hpos : 0 < kT / (f * Lp) := by positivity
+  have hden' : -(g0 + g1 * Fc) * (g0 + g1 * Fc) + St * C ≠ 0 := by
+    intro h; apply hden; linarith
+  have h1 : RealLike.lt f Fc = true := by
+    show decide (f < Fc) = true
+    rw [decide_eq_true_eq]; exact hFc
+  have i1 : RealLike.lt Fc f = false := by
+    show decide (Fc < f) = false
+    rw [decide_eq_false_iff_not]; linarith
+  have i2 : RealLike.le f Fc = true := by
+    show decide (f ≤ Fc) = true
+    rw [decide_eq_true_eq]; linarith
+  apply HasDerivAt.congr_deriv
+  · simp only [twlcDistance, h1, if_true]
+    deriv_auto
+    all_goals side_goal
+  · simp only [twlcDistanceJac, RealLike.sqrt, i1, i2, ind, if_true, Bool.false_eq_true, if_false,
+      List.getD_cons_succ, List.getD_cons_zero]
+    have e : kT * (1.0 / Lp) / f = kT / (f * Lp) := by norm_num; field_simp
+    try rw [e]
+    generalize Real.sqrt (kT / (f * Lp)) = s at *
+    subst hk
+    have hden2 : C * St - (g0 + g1 * (f * 0.0 + Fc * 1.0)) * (g0 + g1 * (f * 0.0 + Fc * 1.0)) ≠ 0 := by
+      norm_num; exact hden
+    have hg2 : g0 + g1 * (f * 0.0 + Fc * 1.0) ≠ 0 := by norm_num; exact hg
+    rat_close
+
+theorem twlc_jac_below_C (f Lp Lc St C g0 g1 Fc kT : ℝ) (hf : 0 < f) (hLp : 0 < Lp) (hkT : 0 < kT) (hFc : f < Fc)
+    (hden : C * St - (g0 + g1 * Fc) * (g0 + g1 * Fc) ≠ 0) (hg : g0 + g1 * Fc ≠ 0) :
+    HasDerivAt (fun v => twlcDistance f Lp Lc St v g0 g1 Fc kT) ((twlcDistanceJac f Lp Lc St C g0 g1 Fc kT).getD 3 0) C := by
+  obtain ⟨hsp, hk⟩ := odijk_sqrt_facts f Lp kT hf hLp hkT
+  have hpos : 0 < kT / (f * Lp) := by positivity
+  have hden' : -(g0 + g1 * Fc) * (g0 + g1 * Fc) + St * C ≠ 0 := by
+    intro h; apply hden; linarith
+  have h1 : RealLike.lt f Fc = true := by
+    show decide (f < Fc) = true
+    rw [decide_eq_true_eq]; exact hFc
+  have i1 : RealLike.lt Fc f = false := by
+    show decide (Fc < f) = false
+    rw [decide_eq_false_iff_not]; linarith
+  have i2 : RealLike.le f Fc = true := by
+    show decide (f ≤ Fc) = true
+    rw [decide_eq_true_eq]; linarith
+  apply HasDerivAt.congr_deriv
+  · simp only [twlcDistance, h1, if_true]
+    deriv_auto
+    all_goals side_goal
+  · simp only [twlcDistanceJac, RealLike.sqrt, i1, i2, ind, if_true, Bool.false_eq_true, if_false,
+      List.getD_cons_succ, List.getD_cons_zero]
+    have e : kT * (1.0 / Lp) / f = kT / (f * Lp) := by norm_num; field_simp
+    try rw [e]
+    generalize Real.sqrt (kT / (f * Lp)) = s at *
+    subst hk
+    have hden2 : C * St - (g0 + g1 * (f * 0.0 + Fc * 1.0)) * (g0 + g1 * (f * 0.0 + Fc * 1.0)) ≠ 0 := by
+      norm_num; exact hden
+    have hg2 : g0 + g1 * (f * 0.0 + Fc * 1.0) ≠ 0 := by norm_num; exact hg
+    rat_close
+
+theorem twlc_jac_below_g0 (f Lp Lc St C g0 g1 Fc kT : ℝ) (hf : 0 < f) (hLp : 0 < Lp) (hkT : 0 < kT) (hFc : f < Fc)
+    (hden : C * St - (g0 + g1 * Fc) * (g0 + g1 * Fc) ≠ 0) (hg : g0 + g1 * Fc ≠ 0) :
+    HasDerivAt (fun v => twlcDistance f Lp Lc St C v g1 Fc kT) ((twlcDistanceJac f Lp Lc St C g0 g1 Fc kT).getD 4 0) g0 := by
+  obtain ⟨hsp, hk⟩ := odijk_sqrt_facts f Lp kT hf hLp hkT
+  have hpos : 0 < kT / (f * Lp) := by positivity
+  have hden' : -(g0 + g1 * Fc) * (g0 + g1 * Fc) + St * C ≠ 0 := by
+    intro h; apply hden; linarith
+  have h1 : RealLike.lt f Fc = true := by
+    show decide (f < Fc) = true
+    rw [decide_eq_true_eq]; exact hFc
+  have i1 : RealLike.lt Fc f = false := by
+    show decide (Fc < f) = false
+    rw [decide_eq_false_iff_not]; linarith
+  have i2 : RealLike.le f Fc = true := by
+    show decide (f ≤ Fc) = true
+    rw [decide_eq_true_eq]; linarith
+  apply HasDerivAt.congr_deriv
+  · simp only [twlcDistance, h1, if_true]
+    deriv_auto
+    all_goals side_goal
+  · simp only [twlcDistanceJac, RealLike.sqrt, i1, i2, ind, if_true, Bool.false_eq_true, if_false,
+      List.getD_cons_succ, List.getD_cons_zero]
+    have e : kT * (1.0 / Lp) / f = kT / (f * Lp) := by norm_num; field_simp
+    try rw [e]
+    generalize Real.sqrt (kT / (f * Lp)) = s at *
+    subst hk
+    have hden2 : C * St - (g0 + g1 * (f * 0.0 + Fc * 1.0)) * (g0 + g1 * (f * 0.0 + Fc * 1.0)) ≠ 0 := by
+      norm_num; exact hden
+    have hg2 : g0 + g1 * (f * 0.0 + Fc * 1.0) ≠ 0 := by norm_num; exact hg
+    rat_close
+
+theorem twlc_jac_below_g1 (f Lp Lc St C g0 g1 Fc kT : ℝ) (hf : 0 < f) (hLp : 0 < Lp) (hkT : 0 < kT) (hFc : f < Fc)
+    (hden : C * St - (g0 + g1 * Fc) * (g0 + g1 * Fc) ≠ 0) (hg : g0 + g1 * Fc ≠ 0) :
+    HasDerivAt (fun v => twlcDistance f Lp Lc St C g0 v Fc kT) ((twlcDistanceJac f Lp Lc St C g0 g1 Fc kT).getD 5 0) g1 := by
+  obtain ⟨hsp, hk⟩ := odijk_sqrt_facts f Lp kT hf hLp hkT
+  have hpos : 0 < kT / (f * Lp) := by positivity
+  have hden' : -(g0 + g1 * Fc) * (g0 + g1 * Fc) + St * C ≠ 0 := by
+    intro h; apply hden; linarith
+  have h1 : RealLike.lt f Fc = true := by
+    show decide (f < Fc) = true
+    rw [decide_eq_true_eq]; exact hFc
+  have i1 : RealLike.lt Fc f = false := by
+    show decide (Fc < f) = false
+    rw [decide_eq_false_iff_not]; linarith
+  have i2 : RealLike.le f Fc = true := by
+    show decide (f ≤ Fc) = true
+    rw [decide_eq_true_eq]; linarith
+  apply HasDerivAt.congr_deriv
+  · simp only [twlcDistance, h1, if_true]
+    deriv_auto
+    all_goals side_goal
+  · simp only [twlcDistanceJac, RealLike.sqrt, i1, i2, ind, if_true, Bool.false_eq_true, if_false,
+      List.getD_cons_succ, List.getD_cons_zero]
+    have e : kT * (1.0 / Lp) / f = kT / (f * Lp) := by norm_num; field_simp
+    try rw [e]
+    generalize Real.sqrt (kT / (f * Lp)) = s at *
+    subst hk
+    have hden2 : C * St - (g0 + g1 * (f * 0.0 + Fc * 1.0)) * (g0 + g1 * (f * 0.0 + Fc * 1.0)) ≠ 0 := by
+      norm_num; exact hden
+    have hg2 : g0 + g1 * (f * 0.0 + Fc * 1.0) ≠ 0 := by norm_num; exact hg
+    rat_close
+
+theorem twlc_jac_below_Fc (f Lp Lc St C g0 g1 Fc kT : ℝ) (hf : 0 < f) (hLp : 0 < Lp) (hkT : 0 < kT) (hFc : f < Fc)
+    (hden : C * St - (g0 + g1 * Fc) * (g0 + g1 * Fc) ≠ 0) (hg : g0 + g1 * Fc ≠ 0) :
+    HasDerivAt (fun v => twlcDistance f Lp Lc St C g0 g1 v kT) ((twlcDistanceJac f Lp Lc St C g0 g1 Fc kT).getD 6 0) Fc := by
+  obtain ⟨hsp, hk⟩ := odijk_sqrt_facts f Lp kT hf hLp hkT
+  have hpos : 0 < kT / (f * Lp) := by positivity
+  have hden' : -(g0 + g1 * Fc) * (g0 + g1 * Fc) + St * C ≠ 0 := by
+    intro h; apply hden; linarith
+  have h1 : RealLike.lt f Fc = true := by
+    show decide (f < Fc) = true
+    rw [decide_eq_true_eq]; exact hFc
+  have i1 : RealLike.lt Fc f = false := by
+    show decide (Fc < f) = false
+    rw [decide_eq_false_iff_not]; linarith
+  have i2 : RealLike.le f Fc = true := by
+    show decide (f ≤ Fc) = true
+    rw [decide_eq_true_eq]; linarith
+  have hev : (fun v => twlcDistance f Lp Lc St C g0 g1 v kT) =ᶠ[𝓝 Fc]
+      fun v => Lc * (1.0 - 1.0 / 2.0 * Real.sqrt (kT / (f * Lp)) + (C / ((-(g0 + g1 * v)) * (g0 + g1 * v) + St * C)) * f) := by
+    filter_upwards [Ioi_mem_nhds hFc] with x hx
+    have hx' : f < x := hx
+    have h1 : RealLike.lt f x = true := by
+      show decide (f < x) = true
+      rw [decide_eq_true_eq]; exact hx'
+    simp only [twlcDistance, h1, if_true]
+    rfl
+  refine HasDerivAt.congr_of_eventuallyEq ?_ hev
+  apply HasDerivAt.congr_deriv
+  · deriv_auto
+    all_goals side_goal
+  · simp only [twlcDistanceJac, RealLike.sqrt, i1, i2, ind, if_true, Bool.false_eq_true, if_false,
+      List.getD_cons_succ, List.getD_cons_zero]
+    have e : kT * (1.0 / Lp) / f = kT / (f * Lp) := by norm_num; field_simp
+    try rw [e]
+    generalize Real.sqrt (kT / (f * Lp)) = s at *
+    subst hk
+    have hden2 : C * St - (g0 + g1 * (f * 0.0 + Fc * 1.0)) * (g0 + g1 * (f * 0.0 + Fc * 1.0)) ≠ 0 := by
+      norm_num; exact hden
+    have hg2 : g0 + g1 * (f * 0.0 + Fc * 1.0) ≠ 0 := by norm_num; exact hg
+    rat_close
+
+theorem twlc_jac_below_kT (f Lp Lc St C g0 g1 Fc kT : ℝ) (hf : 0 < f) (hLp : 0 < Lp) (hkT : 0 < kT) (hFc : f < Fc)
+    (hden : C * St - (g0 + g1 * Fc) * (g0 + g1 * Fc) ≠ 0) (hg : g0 + g1 * Fc ≠ 0) :
+    HasDerivAt (fun v => twlcDistance f Lp Lc St C g0 g1 Fc v) ((twlcDistanceJac f Lp Lc St C g0 g1 Fc kT).getD 7 0) kT := by
+  obtain ⟨hsp, hk⟩ := odijk_sqrt_facts f Lp kT hf hLp hkT
+  have hpos : 0 < kT / (f * Lp) := by positivity
+  have hden' : -(g0 + g1 * Fc) * (g0 + g1 * Fc) + St * C ≠ 0 := by
+    intro h; apply hden; linarith
+  have h1 : RealLike.lt f Fc = true := by
+    show decide (f < Fc) = true
+    rw [decide_eq_true_eq]; exact hFc
+  have i1 : RealLike.lt Fc f = false := by
+    show decide (Fc < f) = false
+    rw [decide_eq_false_iff_not]; linarith
+  have i2 : RealLike.le f Fc = true := by
+    show decide (f ≤ Fc) = true
+    rw [decide_eq_true_eq]; linarith
+  apply HasDerivAt.congr_deriv
+  · simp only [twlcDistance, h1, if_true]
+    deriv_auto
+    all_goals side_goal
+  · simp only [twlcDistanceJac, RealLike.sqrt, i1, i2, ind, if_true, Bool.false_eq_true, if_false,
+      List.getD_cons_succ, List.getD_cons_zero]
+    have e : kT * (1.0 / Lp) / f = kT / (f * Lp) := by norm_num; field_simp
+    try rw [e]
+    generalize Real.sqrt (kT / (f * Lp)) = s at *
+    subst hk
+    have hden2 : C * St - (g0 + g1 * (f * 0.0 + Fc * 1.0)) * (g0 + g1 * (f * 0.0 + Fc * 1.0)) ≠ 0 := by
+      norm_num; exact hden
+    have hg2 : g0 + g1 * (f * 0.0 + Fc * 1.0) ≠ 0 := by norm_num; exact hg
+    rat_close
+
+
+end extjac
+
 end Verif.C13
